@@ -429,11 +429,29 @@ def headers_and_tables(ctx, ld):
     hdr = u(kwi['headers']) if 'headers' in kwi else None
     restored = False
     if schema_var and hdr:
-        for pat_ in ("for (_h, _f) in zip(%s, %s['fields']):\n    _f['name'] = _h" % (hdr, schema_var),
-                     "for (_f, _h) in zip(%s['fields'], %s):\n    _f['name'] = _h" % (schema_var, hdr),
-                     "for (_i, _f) in enumerate(%s['fields']):\n    _f['name'] = %s[_i]" % (schema_var, hdr),
+        for pat_ in ("for (_i, _f) in enumerate(%s['fields']):\n    _f['name'] = %s[_i]" % (schema_var, hdr),
                      "for (_i, _h) in enumerate(%s):\n    %s['fields'][_i]['name'] = _h" % (hdr, schema_var)):
             restored = restored or has_stmt(pat_, sp.node)
+        # the pairing loop, with either order of the pair, locals for the two sequences, and the store as item assignment or update()
+        from rules.stream import subst_once as _so13
+        for l_ in ast.walk(sp.node):
+            if not (isinstance(l_, ast.For) and isinstance(l_.target, ast.Tuple) and len(l_.target.elts) == 2
+                    and all(isinstance(t_, ast.Name) for t_ in l_.target.elts)):
+                continue
+            z_ = match_expr('zip(__A, __B)', l_.iter)
+            sides = None
+            if z_ is not None:
+                # each side as written, or through a local bound once to it
+                from rules.stream import once_bound as _ob13
+                sides = [u(_ob13(sp.node, z_[k_])) if isinstance(z_[k_], ast.Name) else u(z_[k_]) for k_ in ('__A', '__B')]
+            if sides is None or sorted(sides) != sorted([hdr, "%s['fields']" % schema_var]):
+                continue
+            hv_ = l_.target.elts[sides.index(hdr)].id
+            fv_ = l_.target.elts[1 - sides.index(hdr)].id
+            for st_ in l_.body:
+                if match_stmt("%s['name'] = %s" % (fv_, hv_), st_) is not None or match_stmt('%s.update(name=%s)' % (fv_, hv_), st_) is not None \
+                        or match_stmt("%s.update({'name': %s})" % (fv_, hv_), st_) is not None:
+                    restored = True
     run.check(restored, 'OPT', where(repo, infs[0]), sp.qualname, "for header, field in zip(stream.headers, schema['fields']): field['name'] = header",
               'the inferred fields keep the names Schema.infer made up (field<N> for an empty header, a number appended to a repeated one) '
               'while the rows are keyed by the headers as read: those columns are declared under one name and delivered under another')
@@ -618,8 +636,9 @@ def selection(ctx, ld):
               'an unselected iterator of a (descriptor, iterators) pair is skipped without being consumed: with a sequential source '
               '(unstream, a piped package) the selected resource then receives the skipped resource\'s rows')
     # new resources appended after the existing ones (R26 covers the stream phase)
+    from rules.stream import once_bound as _obx
     ext = [c for c in own_nodes(sp.node) if isinstance(c, ast.Call) and isinstance(c.func, ast.Attribute) and c.func.attr == 'extend'
-           and "setdefault('resources', [])" in u(c.func.value)]
+           and "setdefault('resources', [])" in u(_obx(sp.node, c.func.value))]
     run.check(len(ext) == 1 and pseudo(ext[0].args[0]) == 'self.resource_descriptors', 'SEL', sp.where, sp.qualname,
               "dp.descriptor.setdefault('resources', []).extend(self.resource_descriptors)", 'loaded descriptors are not appended')
 
